@@ -5,10 +5,13 @@ CONSTANTS
   MaxLen = 6
   MaxC = 2
   MaxAtoms = 2
+  GuardSet = {"none", "isnone", "other"}
+  Narrow = FALSE
   Shapes = {"one", "chain", "prim"}
   ForeignGuardMisread = TRUE
   StrictPositiveMin = TRUE
   RaiseOnConflict = TRUE
+  NegativeMaxIsError = FALSE
 INVARIANT TypeOK
 INVARIANT PinnedExact
 INVARIANT PinnedUnsatNotOk
